@@ -9,6 +9,18 @@ CLAIMED = {
  "C05": ("exploration", "deterministic simulation with fault injection: seeded search over schedules, read/write segmentations and connection faults; per-connection exactly-once/in-order oracle over wire taps vs recv history",
          "Whole library on a simulated runtime: a receiving socket of each fair-queue type with 1..4 scripted senders; every run draws its own scheduler policy, pipe capacities, chunking, yields, delivery delays, late joins, closes, mid-message cuts and resets. Oracle at quiescence: recv results attributed by tag equal, in order and frame by frame, the complete messages an independent RFC-23 decoder finds on each connection's tap. Sampling, not proof.",
          "Trusts the simulated transport to behave like an ordered reliable byte stream, the independent reference codec, and that task interleavings at await points plus reactor events at mutex boundaries cover the relevant schedules.", "5/C05, B1"),
+ "C06": ("exploration", "deterministic simulation of the real fair queue with scripted streams: seeded search over interleavings of arrivals, wakes, inserts, closes and receiver polls, including events inside the window where poll_next holds no lock; lost-wake-up and bounded-overtaking oracles at quiescence",
+         "L1: the private fair queue driven through the FairQueueProbe hook; foreign events land between polls, inside stream polls and at every lock/unlock of the queue's mutex. Oracles: at quiescence the receiver may not be parked un-woken while an inserted stream holds an item; with deep queues no ready peer waits for more than 2n+2 (+1 per injected spurious wake) foreign deliveries. L2: whole library, nobody parked in recv while a complete message is undelivered. Sampling, not proof.",
+         "Trusts that every access to the queue's shared state goes through its parking_lot mutex (so lock boundaries are the only interleaving points), and the waker contract modelled by the scripted streams (fired at most once per registration).", "5/C06, 3.9, B2, B3"),
+ "C07": ("exploration", "deterministic simulation: REQ and REP sockets against scripted peers and each other under seeded segmentation and scheduling; envelope algebra checked on wire taps and at the API",
+         "REP fed requests with 0..3 routing frames, delimiter and 1..4 payload frames from the boundary grid (empty frames inside), plus single-frame and delimiter-last forms; REQ against a scripted REP; REQ against REP. Oracles: REQ wire = delimiter + payload, REQ recv = reply minus the delimiter, REP recv = frames after the first delimiter, REP wire = saved prefix + delimiter + reply, never a zero-frame message.",
+         "Payload space sampled over a length grid; requests with no delimiter at all are outside the statement.", "5/C07"),
+ "C08": ("exploration", "deterministic simulation: every call sequence over {send, recv} up to length 6 on REQ and on REP compared call by call with a reference state machine, and seeded schedules of 1..4 concurrent clients with replies attributed by tag and by connection tap",
+         "All 126 sequences are enumerated (undisturbed, then under random transport and schedules); an illegal call must fail, hand the message back intact, leave every tap unchanged and not disturb the next legal call. Concurrency: real and scripted REQ clients against one REP; each reply must appear on the connection its request arrived on.",
+         "Sequence space exhaustive to length 6; schedules sampled. REP recv while a request is held is not judged.", "5/C08"),
+ "C14": ("fault_enumeration", "deterministic simulation with cancellation faults: recv futures dropped after k polls (k = 0..5) at sampled byte-arrival positions for every receiving socket type; delivery oracle of C05 plus REQ protocol-state oracle",
+         "Every fair-queue socket type with up to 24 abandoned recv calls per run while tagged messages arrive under random segmentation; the concatenation of completed recvs must still be exactly-once/in-order/whole. REQ: after an abandoned recv a further send must be refused with the message intact and nothing on the wire, and the next completed recv must return the reply to the outstanding request.",
+         "Cancellation = dropping the future, as select!/timeout/proxy do. Poll budgets enumerated 0..5; arrival positions sampled.", "5/C14"),
 }
 NOT_YET = {}
 
